@@ -58,14 +58,14 @@ func genFault(t *rapid.T, x xcase, total int) c02Fault {
 	perConn := (total + x.Conns - 1) / x.Conns
 	f.Ordinal = rapid.IntRange(0, perConn+1).Draw(t, "fault_stream")
 	f.Dir = verifkit.Dir(rapid.IntRange(0, 1).Draw(t, "fault_dir"))
-	f.Frac = rapid.Float64Range(0, 1).Draw(t, "fault_pos")
+	f.Frac = frac(t, "fault_pos")
 	if rapid.IntRange(0, 4).Draw(t, "fault_pos_edge") == 0 {
 		f.Frac = rapid.SampledFrom([]float64{0, 0.999999}).Draw(t, "fault_edge")
 	}
 	f.Bit = uint(rapid.IntRange(0, 7).Draw(t, "fault_bit"))
-	f.HitFrac = rapid.Float64Range(0, 1).Draw(t, "fault_hit")
+	f.HitFrac = frac(t, "fault_hit")
 	f.File = rapid.IntRange(0, 20).Draw(t, "fault_file")
-	f.LenFrac = rapid.Float64Range(0, 1).Draw(t, "fault_len")
+	f.LenFrac = frac(t, "fault_len")
 	f.MidRun = rapid.Bool().Draw(t, "fault_midrun")
 	return f
 }
